@@ -539,3 +539,99 @@ def rule_union_member(ctx):
 
 
 RULES.append(("C13.m", "which union member (future / output) a handle may drop in which phase", rule_union_member))
+
+
+def _state_effect(o):
+    """effect of an expression over the old state `s` (closure argument): (or_mask, and_mask, sub) or None if not of that form."""
+    from ..masks import const_eval
+    M = (1 << 64) - 1
+    if isinstance(o, tuple) and o and o[0] == "arg":
+        return (0, M, 0)
+    if isinstance(o, tuple) and o and o[0] == "proj" and o[2] == ("f", "0"):
+        return _state_effect(o[1])
+    if isinstance(o, tuple) and o and o[0] == "bin":
+        op = o[1].replace("WithOverflow", "").replace("Unchecked", "")
+        for x, y in ((o[2], o[3]), (o[3], o[2])):
+            c = const_eval(y)
+            if c is None:
+                continue
+            e = _state_effect(x)
+            if e is None:
+                continue
+            orm, andm, sub = e
+            if op == "BitOr":
+                return (orm | c, andm, sub)
+            if op == "BitAnd":
+                return (orm & c, andm & c, sub)
+            if op == "Sub" and y is o[3]:
+                return (orm, andm, sub + c)
+            return None
+    return None
+
+
+def rule_cancel_refcount(ctx):
+    """CancelToken::cancel updates the state with one fetch_update. The token's reference is released exactly once: inside the update
+    when nothing is left for the canceller to drop (task not polling, or a Runnable exists and will drop the future), otherwise by the
+    drop guard after the canceller dropped the future. Each branch also sets CLOSED when the task was still polling."""
+    P = ctx.prog
+    C = consts(P)
+    if None in C.values():
+        return ctx.missing("task state constants")
+    M = (1 << 64) - 1
+    b = ctx.body(TASK + "cancel_token::cancel")
+    if b is None:
+        return
+    fus = list(b.calls("^" + ATOM + "fetch_update$"))
+    cbs = [P.body(norm(g)) for fu in fus for g in (fu.node.get("gdefs") or [])]
+    cbs = [c for c in cbs if c is not None]
+    if len(fus) != 1 or len(cbs) != 1:
+        return ctx.missing("the fetch_update of cancel_token::cancel and its closure")
+    cb = cbs[0]
+    rets = [r for r in K.ret_assigns(cb) if not r.is_term and r.node["r"]["r"] == "agg" and r.node["r"].get("variant") == "Some"]
+    seen = set()
+    for r in rets:
+        o = cb.origins(r.node["r"]["ops"][0], r)
+        eff = _state_effect(next(iter(o))) if len(o) == 1 else None
+        conds = cb.conditions(r)
+        mcs = [mask_cmp(c) for c in conds]
+        not_polling = _bit_implied(mcs, C["POLLING"], 0)
+        polling = _bit_implied(mcs, C["POLLING"], 1)
+        rex = [c.data[1] for c in conds if c.kind == "call" and c.data[0] == TASK + "util::runnable_exists"]
+        if not_polling:
+            branch, want = "not-polling", (0, M, C["REF_INC"])
+        elif polling and rex == [True]:
+            branch, want = "runnable-exists", (C["CLOSED"], M, C["REF_INC"])
+        elif polling and rex == [False]:
+            branch, want = "canceller-drops", (C["CLOSED"] & ~C["POLLING"], M & ~C["POLLING"], 0)
+        else:
+            branch, want = "unclassified", None
+        seen.add(branch)
+        ctx.ob("cancel-update|%s" % branch, eff is not None and eff == want,
+               "new state on the `%s` branch: %s" % (branch, {
+                   "not-polling": "s - REF_INC (nothing to drop, reference released at once)",
+                   "runnable-exists": "(s | CLOSED) - REF_INC (the Runnable drops the future; reference released at once)",
+                   "canceller-drops": "(s | CLOSED) & !POLLING (the canceller drops the future; the reference is released afterwards by the guard)",
+               }.get(branch, "?")), [r])
+    ctx.ob("cancel-update|three-branches", seen == {"not-polling", "runnable-exists", "canceller-drops"},
+           "the update distinguishes: not polling / a Runnable exists / the canceller must drop (found %s)" % sorted(seen), rets)
+    # the deferred release: a fetch_sub(REF_INC) inside a drop guard created only on the canceller-drops side
+    guards = []
+    for g in P.children(b):
+        for s in g.calls("^" + ATOM + "fetch_sub$"):
+            if const_eval_set(g.origins(s.args()[1], s)) == C["REF_INC"]:
+                guards.append((g, s))
+    ok = len(guards) == 1
+    if ok:
+        g, s = guards[0]
+        cs = P.creation_sites(g)
+        ok = len(cs) == 1
+        if ok:
+            conds = b.conditions(cs[0])
+            mcs = [mask_cmp(c) for c in conds]
+            ok = _bit_implied(mcs, C["POLLING"], 1) and any(c.kind == "call" and c.data[0] == TASK + "util::runnable_exists" and c.data[1] is False for c in conds)
+    ctx.ob("cancel-deferred-release", ok,
+           "the reference that the update kept is released by one drop guard (fetch_sub(REF_INC)) created exactly on the path where the task was "
+           "polling and no Runnable existed", [s for _, s in guards])
+
+
+RULES.append(("C13.n", "CancelToken::cancel releases its reference exactly once (state update table + deferred release)", rule_cancel_refcount))
